@@ -1,4 +1,5 @@
 import UF.Proofs.Shortcut
+import UF.Proofs.RegexFast
 import UF.Model.RegexParse
 /-
   C05 — the shortcut pre-check never rejects a request the rule accepts.
@@ -31,37 +32,37 @@ theorem c05_re_fold (r : Re) (u : Bytes) (h : search r.foldCase u = true) :
   have := search_lits r.foldCase u h
   rwa [requiredLits_foldCase] at this
 
-/-- A shortcut that is empty or contained in a required literal of the tree (what the `c05.shortcut`
-    correspondence op checks on Go's own parse tree) is a factor of every accepted lower-cased subject. -/
-theorem c05_justified (shortcut : Bytes) (tree : Re) (u : Bytes)
-    (hj : shortcutJustified shortcut tree = true)
-    (h : search tree u = true ∨ search tree.foldCase u = true) :
+/-- A shortcut that is empty or contained in a required literal of the compiled expression (what the
+    `c05.shortcut` correspondence op checks on Go's own parse tree) is a factor of every accepted
+    lower-cased subject. -/
+theorem c05_justified (shortcut : Bytes) (c : Re) (u : Bytes)
+    (hj : shortcutJustified shortcut c = true) (h : search c u = true) :
     hasSub (toLower u) shortcut = true := by
   simp only [shortcutJustified, Bool.or_eq_true, List.isEmpty_iff, List.any_eq_true] at hj
   rcases hj with rfl | ⟨l, hl, hsub⟩
   · exact hasSub_nil _
-  · have : hasSub (toLower u) l = true := by
-      rcases h with h | h
-      · exact c05_re tree u h l hl
-      · exact c05_re_fold tree u h l hl
-    exact hasSub_trans this hsub
+  · exact hasSub_trans (c05_re c u h l hl) hsub
 
 /-- `findRegexpShortcut` + `loadShortcut` for ANY list of candidates produced by the textual heuristics:
-    the resulting shortcut is a factor of every lower-cased subject the compiled expression accepts. -/
-theorem c05_regex_shortcut (parts : List Bytes) (tree : Option Re) (u : Bytes)
-    (h : ∃ t, tree = some t ∧ (search t u = true ∨ search t.foldCase u = true)) :
+    the resulting shortcut is a factor of every lower-cased subject accepted by the compiled expression
+    `c`, provided `c` requires what the consulted tree requires (`litsCovered`; true for the tree itself
+    and for the tree under `(?i)`: `litsCovered_refl`, `litsCovered_foldCase`).  If the text did not
+    parse (`tree = none`) nothing is required, no candidate is accepted and the shortcut is empty. -/
+theorem c05_regex_shortcut (parts : List Bytes) (tree : Option Re) (c : Re) (u : Bytes)
+    (hcov : ∀ t, tree = some t → litsCovered t c = true) (h : search c u = true) :
     hasSub (toLower u) (loadShortcut (findRegexpShortcut parts tree)) = true := by
-  obtain ⟨t, rfl, h⟩ := h
-  rcases loadShortcut_cases (findRegexpShortcut parts (some t)) with h0 | h0 <;> rw [h0]
+  rcases loadShortcut_cases (findRegexpShortcut parts tree) with h0 | h0 <;> rw [h0]
   · exact hasSub_nil _
   · simp only [findRegexpShortcut]
-    rcases pickLongest_sound parts t.requiredLits with h0 | ⟨l, hl, hsub⟩
-    · rw [h0]; exact hasSub_nil _
-    · have : hasSub (toLower u) l = true := by
-        rcases h with h | h
-        · exact c05_re t u h l hl
-        · exact c05_re_fold t u h l hl
-      exact hasSub_trans this hsub
+    cases tree with
+    | none =>
+      rcases pickLongest_sound parts [] with h0 | ⟨l, hl, _⟩
+      · simp only [h0]; exact hasSub_nil _
+      · simp at hl
+    | some t =>
+      rcases pickLongest_sound parts t.requiredLits with h0 | ⟨l, hl, hsub⟩
+      · simp only [h0]; exact hasSub_nil _
+      · exact hasSub_trans (search_covered t c u (hcov t rfl) h l hl) hsub
 
 /-- The property at the level of `Match`: if the shortcut is a factor of the lower-cased URL whenever
     the pattern accepts, the result of `Match` is the same as with the shortcut test removed. -/
@@ -75,20 +76,21 @@ theorem c05 (ext : Ext) (r : NetRule) (q : Request)
   | true => simp only [h hm, Bool.true_and, Bool.and_true]; rfl
 
 /-- Regex rules.  `tree` is the parse tree `findRegexpShortcut` consults, `parts` the (arbitrary)
-    candidates; the pattern oracle accepts a target only if the tree accepts it, as written or under
-    `(?i)`.  Requests are well formed: `URLLowerCase = ToLower(URL)` and, for hostname requests, the
+    candidates; the pattern oracle accepts a target only if a compiled expression `c` that covers the
+    tree's required literals accepts it.  Requests are well formed: `URLLowerCase = ToLower(URL)` and, for hostname requests, the
     hostname is a factor of the URL (`"http://" + hostname`). -/
 theorem c05_regex_rule (ext : Ext) (r : NetRule) (q : Request) (parts : List Bytes) (tree : Option Re)
     (hshort : r.shortcut = loadShortcut (findRegexpShortcut parts tree))
     (hpat : ∀ target, ext.pat r.pattern (r.isEnabled Facts.OptionMatchCase) target = true →
-      ∃ t, tree = some t ∧ (search t target = true ∨ search t.foldCase target = true))
+      ∃ c, (∀ t, tree = some t → litsCovered t c = true) ∧ search c target = true)
     (hlower : q.urlLower = toLower q.url)
     (hhost : q.isHostnameRequest = true → hasSub q.url q.hostname = true) :
     r.matches ext q = ({ r with shortcut := [] } : NetRule).matches ext q := by
   apply c05
   intro hm
   simp only [matchPattern] at hm
-  have hsc := c05_regex_shortcut parts tree _ (hpat _ hm)
+  obtain ⟨c, hcov, hs⟩ := hpat _ hm
+  have hsc := c05_regex_shortcut parts tree c _ hcov hs
   rw [hshort, hlower]
   refine hasSub_trans (hasSub_toLower ?_) hsc
   split
@@ -124,13 +126,19 @@ theorem c05_regex_model (ext : Ext) (r : NetRule) (q : Request) (parts : List By
       simp only [Bool.false_eq_true, if_false, parseRE_ci] at ht
       cases hp : parseCore inner with
       | none => rw [hp] at ht; simp at ht
-      | some t => rw [hp] at ht; exact ⟨t, rfl, .inr (by simpa using ht)⟩
+      | some t =>
+        rw [hp] at ht
+        refine ⟨t.foldCase, ?_, by simpa [searchFast_eq] using ht⟩
+        intro t' ht'; cases ht'; exact litsCovered_foldCase t
     | true =>
       rw [hmc] at ht
       simp only [if_true, parseRE, hci hmc, Bool.false_eq_true, if_false] at ht
       cases hp : parseCore inner with
       | none => rw [hp] at ht; simp at ht
-      | some t => rw [hp] at ht; exact ⟨t, rfl, .inl (by simpa using ht)⟩
+      | some t =>
+        rw [hp] at ht
+        refine ⟨t, ?_, by simpa [searchFast_eq] using ht⟩
+        intro t' ht'; cases ht'; exact litsCovered_refl t
 
 /-- Mask rules, part 1: the `IndexAny` loop of `findShortcut` never panics (its slice expressions are
     checked in the model) … -/
